@@ -232,7 +232,8 @@ func filterOpOnDataType(rec []byte, qValDte *DtypeEnclosure, fop FilterOperator,
 		}
 
 		if rec[0] != VALTYPE_ENC_BOOL[0] {
-			return false, utils.TeeErrorf("filterOpOnDataType: expected bool encoding; got %v", rec[0])
+			// not a boolean (e.g. the record does not have the column): no match, as for strings
+			return false, nil
 		}
 
 		return fopOnBool(rec, qValDte, fop)
